@@ -24,7 +24,7 @@ package engine
 //@   requires typing: dmap(d)[boxed(global("github.com/uber-go/gopatch/internal/engine.fileMatchKey"))] != nil ==> wfFileMatch(dmap(d)[boxed(global("github.com/uber-go/gopatch/internal/engine.fileMatchKey"))])
 //@   requires recorded-slots-are-current: restructured == noneRestructured()
 //@   at call (engine.FileReplacer).Replace set replFail = replFail + ite(result1 != nil, 1, 0)
-//@   assigns group(ast), replFail, sitesReplaced, restructured
+//@   assigns group(ast), replFail, sitesReplaced, restructured, inspections
 //@   ensures err == nil ==> f != nil && replFail == old(replFail)
 //@   ensures err != nil ==> replFail == old(replFail) + 1
 //@   ensures [C09] the-matched-file-object-is-returned: err == nil ==> f == matchedFile(dmap(d))
@@ -452,6 +452,7 @@ package engine
 //@   ensures [C03,C09] the-matched-file-is-recorded: ok ==> matchedFile(dmap(d1)) == file
 //@   ensures [C01,C06] a-file-matches-only-if-some-site-matched: ok ==> len(unbox(dmap(d1)[boxed(global("github.com/uber-go/gopatch/internal/engine.fileMatchKey"))], "S_engine_fileMatchData").Matches) > 0
 //@   ensures d1 != nil
+//@   at call golang.org/x/tools/go/ast/astutil.Apply assert [C02,C10] the-body-is-matched-under-the-bindings-made-by-the-import-guards: d == ret("(engine.ImportsMatcher).Match", 0, 0) && arg0 == boxed(file)
 //@   at call golang.org/x/tools/go/ast/astutil.Apply set restructured = noneRestructured()
 //@   ensures [C03,C05] recorded-slots-are-current: ok ==> restructured == noneRestructured()
 //@   assigns restructured
@@ -867,7 +868,7 @@ package engine
 //@   requires recorded-slots-are-current: restructured == noneRestructured()
 //@   at call engine.Replacer.Replace set sitesReplaced = sitesReplaced + 1
 //@   at call (reflect.Value).Set assert [C03,C05] the-slot-written-is-the-slot-that-matched: m.index >= 0 ==> !restructured[m.parent]
-//@   assigns group(ast), sitesReplaced, restructured
+//@   assigns group(ast), sitesReplaced, restructured, inspections
 //@   ensures [C03] every-recorded-site-is-processed: err == nil ==> sitesReplaced == old(sitesReplaced) + len(fd.Matches)
 //@   ensures [C06,C09] the-matched-file-object-is-returned: err == nil ==> file == matchedFile(dmap(d))
 //@   ensures [C09] never-another-file: file == nil || file == matchedFile(dmap(d))
@@ -959,7 +960,7 @@ package engine
 //@   at call golang.org/x/tools/go/ast/astutil.DeleteNamedImport assert [C11] deleted-under-the-name-recorded-for-this-very-import: arg2 == impRecName(dmap(d), imp)
 //@   at call golang.org/x/tools/go/ast/astutil.DeleteNamedImport assert [C11] only-if-replaced-or-unused: replaced || !ret("engine.usesNameAsTopLevel", 0)
 //@   at call engine.usesNameAsTopLevel assert [C11] usage-is-checked-under-this-imports-own-package-name: dmap(d)[boxed(as("github.com/uber-go/gopatch/internal/engine.importKey", imp))] == nil ==> arg1 == pathBase(imp)
-//@   assigns group(ast), restructured
+//@   assigns group(ast), restructured, inspections
 //@   loop 0
 //@     invariant taken != nil
 //@   loop 1
@@ -968,7 +969,10 @@ package engine
 //@     invariant true
 
 //@ func usesNameAsTopLevel(f, name) (used)
-//@   assigns nothing
+//@   at call go/ast.Inspect assert [C09,C11,C14] the-file-as-it-is-now-is-searched: arg0 == boxed(f)
+//@   at call go/ast.Inspect set inspections = inspections + 1
+//@   ensures [C09,C11,C14] the-answer-always-comes-from-a-search-of-the-file: inspections == old(inspections) + 1
+//@   assigns inspections
 
 // The ast.Inspect callback of usesNameAsTopLevel: only a selector whose base is a plain identifier ends
 // the descent; every other node (including a selector with a compound base such as a.b.c or a().b) is
